@@ -84,8 +84,19 @@ func (b *c08Builder) claimsAndXRs(n int, pDel int) {
 			// the XR of another pair (exists or not): a name related to ours by a prefix
 			ref = c08XRNames[xns[(i+1)%len(xns)]]
 		}
+		// one reference in four was written for another version of the XR kind (the XRD's
+		// referenceable version changed since) or names another kind altogether
+		refVer := ""
+		if ref != "" {
+			switch x := r.Intn(100); {
+			case x < 16:
+				refVer = "old"
+			case x < 25:
+				refVer = "other"
+			}
+		}
 		b.add(c08Obj{Kind: "claim", Name: cn, Fins: b.fins(claim.VerifC08Finalizer, 88, 18), Del: r.Chance(pDel, 100),
-			Flag: r.Bool(), Paused: r.Chance(4, 100), Ref: ref})
+			Flag: r.Bool(), Paused: r.Chance(4, 100), Ref: ref, RefVer: refVer})
 		if ref == xn || r.Chance(50, 100) {
 			cref := cn
 			switch {
@@ -140,7 +151,7 @@ func (b *c08Builder) xrd(pDel int) {
 		case r.Chance(50, 100):
 			ow = append(ow, c08Owner{Idx: xi, Ctrl: false})
 		}
-		b.add(c08Obj{Kind: "crd", Name: n, Fins: b.fins(c08Hold, 8, 0), Del: r.Chance(4, 100), Owners: ow})
+		b.add(c08Obj{Kind: "crd", Name: n, Fins: b.fins(c08Hold, 8, 0), Del: r.Chance(4, 100), Owners: ow, Flag: r.Chance(60, 100)})
 	}
 }
 
@@ -188,6 +199,7 @@ func (b *c08Builder) usages() {
 		if r.Chance(70, 100) {
 			b.add(c08Obj{Kind: "res", Name: "used1", Inuse: true})
 		}
+		b.usageOwners()
 		return
 	}
 	n := 1
@@ -231,6 +243,44 @@ func (b *c08Builder) usages() {
 		if r.Chance(35, 100) {
 			addRes(rk{Pick(r, []string{"res", "res2", "res3"}), x.name}, 100, c08Obj{Fins: b.fins(c08Hold, 20, 0)})
 		}
+	}
+	b.usageOwners()
+}
+
+// usageOwners gives Usages the owner references the Usage reconciler's configure path and a
+// composition leave behind: the composite (gone or never there), the using resource as it is
+// now, and — the using resource having been deleted and re-created under the same name — a
+// STALE reference to an earlier incarnation of it (same type and name, another UID), before
+// or after the current one, or alone.
+func (b *c08Builder) usageOwners() {
+	r := b.r
+	for i := range b.objs {
+		u := &b.objs[i]
+		if u.Kind != "usage" || u.Ref == "" || !r.Chance(45, 100) {
+			continue
+		}
+		cur := -1
+		for j, o := range b.objs {
+			if o.Kind == c08ResKind(u.RefKind) && o.Name == u.Ref {
+				cur = j
+			}
+		}
+		var ow []c08Owner
+		if r.Chance(40, 100) {
+			ow = append(ow, c08Owner{Idx: -1, Ctrl: true, Block: true}) // the composite
+		}
+		stale := c08Owner{Idx: -1, Stale: true}
+		switch x := r.Intn(100); {
+		case x < 45 && cur >= 0:
+			ow = append(ow, stale, c08Owner{Idx: cur})
+		case x < 60 && cur >= 0:
+			ow = append(ow, c08Owner{Idx: cur}, stale)
+		case x < 80 && cur >= 0:
+			ow = append(ow, c08Owner{Idx: cur})
+		default:
+			ow = append(ow, stale)
+		}
+		u.Owners = ow
 	}
 }
 
@@ -279,11 +329,17 @@ type c08Live struct {
 
 // c08RandomSchedule returns an adaptive step chooser: it only starts reconciles of
 // objects that are being deleted (or are gone), one at a time per (controller, key).
-func c08RandomSchedule(r *Rng, n int, liveClaims bool) func(w *c08World, i int) (c08Step, bool) {
+//
+// atomicLive: in addition, whole reconciles of LIVE objects (claims with a resourceRef, the
+// XRD by either of its controllers, Usages, the Lock part of package revisions) are run
+// atomically between the steps of the teardown reconciles (op "live"); the model executes
+// the abstract creating steps they amount to (Xp.C08.liveActs). No lagging caches in these
+// schedules: a cache older than a creation is the recorded cache-miss finding.
+func c08RandomSchedule(r *Rng, n int, liveClaims, atomicLive bool) func(w *c08World, i int) (c08Step, bool) {
 	live := map[int]c08Live{}
 	// one scenario in three has lagging informer caches, one in three third-party edits;
 	// never together with live-claim reconciles (those are outside the model already)
-	lagging := !liveClaims && r.Chance(1, 3)
+	lagging := !liveClaims && !atomicLive && r.Chance(1, 3)
 	editing := !liveClaims && r.Chance(1, 3)
 	calls := map[int]int{} // thread -> calls made so far
 	return func(w *c08World, i int) (c08Step, bool) {
@@ -307,7 +363,7 @@ func c08RandomSchedule(r *Rng, n int, liveClaims bool) func(w *c08World, i int) 
 			keys = append(keys, k)
 		}
 		sort.Strings(keys)
-		var spawns []c08Live
+		var spawns, lives []c08Live
 		var dels, unfins []c08View
 		var edits []c08Step
 		xrNames, claimNames := []string{"", "xgone"}, []string{"", "ns/other"}
@@ -341,6 +397,22 @@ func c08RandomSchedule(r *Rng, n int, liveClaims bool) func(w *c08World, i int) 
 				}
 			} else if v.Kind != "crd" && v.Kind != "lock" {
 				dels = append(dels, v)
+			}
+			if atomicLive && !v.Del {
+				switch v.Kind {
+				case "claim":
+					if v.Ref != "" {
+						lives = append(lives, c08Live{"claim", v.Name})
+					}
+				case "xrd":
+					lives = append(lives, c08Live{"defined", v.Name}, c08Live{"offered", v.Name})
+				case "usage":
+					lives = append(lives, c08Live{"usage", v.Name})
+				case "rev":
+					if !v.SkipDeps {
+						lives = append(lives, c08Live{"rev", v.Name})
+					}
+				}
 			}
 			if v.hasFin(c08Hold) {
 				unfins = append(unfins, v)
@@ -422,6 +494,12 @@ func c08RandomSchedule(r *Rng, n int, liveClaims bool) func(w *c08World, i int) 
 					continue
 				}
 				return Pick(r, edits), true
+			case atomicLive && x >= 61 && x < 69:
+				if len(lives) == 0 {
+					continue
+				}
+				l := Pick(r, lives)
+				return c08Step{Op: "live", C: l.ctl, Name: l.name}, true
 			case x < 77:
 				if len(spawns) == 0 || len(liveIDs) >= 4 {
 					continue
@@ -1176,10 +1254,19 @@ func init() {
 			n := r.Range(8, 45)
 			// 1 scenario in 40 of the families with an XRD also schedules live-claim reconciles
 			liveClaims := (fam == "xrd" || fam == "mixed") && r.Chance(1, 16)
-			s2, obs, mons := c08Run(s, c08RandomSchedule(r, n, liveClaims))
+			// 1 scenario in 8 runs whole reconciles of live objects atomically in between
+			atomicLive := !liveClaims && r.Chance(1, 8)
+			s2, obs, mons := c08Run(s, c08RandomSchedule(r, n, liveClaims, atomicLive))
 			cls := c08Class(fam, s2, obs)
 			if liveClaims {
 				cls = "liveclaim:" + fam
+			}
+			if atomicLive {
+				for _, st := range s2.Steps {
+					if st.Op == "live" {
+						cls = "live:" + st.C
+					}
+				}
 			}
 			c.Emit(s2, obs, mons, cls)
 		}
@@ -1198,6 +1285,9 @@ func init() {
 		def("c08ClaimControllerPrefix", strings.TrimSuffix(claim.ControllerName("x"), "x"))
 		def("c08ReasonTerminatingComposite", string(v1.TerminatingComposite().Reason))
 		def("c08ReasonTerminatingClaim", string(v1.TerminatingClaim().Reason))
+		def("c08ReasonWatchingComposite", string(v1.WatchingComposite().Reason))
+		def("c08ReasonWatchingClaim", string(v1.WatchingClaim().Reason))
+		def("c08ReasonWaiting", string(claim.Waiting().Reason))
 		return sb.String()
 	})
 }
